@@ -140,6 +140,12 @@ def _make_items(vals, ids, fmt):
     if fmt == "names_valueof":
         d = _register("valueof-dict", {name_str(i): v for i, v in zip(ids, vals)})
         return [name_str(i) for i in ids], (lambda x, d=d: d[x]), lambda x: int(x[1:])
+    if fmt == "dict_valueof":
+        # a dict AND an explicit value function: the caller's valueof must win over the dict's own values (decoys in reverse order)
+        mx = max([abs(v) for v in vals if isinstance(v, int)] + [0])
+        decoy = {name_str(i): (mx - v + 1 if isinstance(v, int) else 0) for i, v in zip(ids, vals)}
+        d = _register("valueof-dict", {name_str(i): v for i, v in zip(ids, vals)})
+        return decoy, (lambda x, d=d: d[x]), lambda x: int(x[1:])
     if fmt == "records_valueof":
         # UNHASHABLE item objects: [name, value] records (lists) with a value function - some algorithms refuse them (they count items
         # with a Counter); used by the history port only, where a refused call must still leave the caller's list alone
